@@ -158,13 +158,14 @@ func checkResolveFilePathOrder(c *Ctx, r *Report, rule string) {
 
 func checkEmbeddedSecurityDefaults(c *Ctx, r *Report, rule string) {
 	names := map[string]bool{}
-	for _, cn := range []string{"authStrictKey", "authBypass"} {
+	// only the host-key switch: C14 is about host-key verification (an auth-bypass entry is a different matter)
+	for _, cn := range []string{"authStrictKey"} {
 		if co := c.LookupConst("platform", cn); co != nil {
 			names[strings.Trim(co.Val().ExactString(), `"`)] = true
 		}
 	}
-	if len(names) != 2 {
-		r.Anchor(rule, "platform.authStrictKey / platform.authBypass")
+	if len(names) != 1 {
+		r.Anchor(rule, "platform.authStrictKey")
 		return
 	}
 	files, _ := filepath.Glob(filepath.Join(c.Repo, "assets", "platforms", "*.yaml"))
@@ -200,11 +201,11 @@ func checkEmbeddedSecurityDefaults(c *Ctx, r *Report, rule string) {
 			}
 		}
 		walk(&doc)
-		construct := rel + " leaves host-key checking and authentication as the user configured them"
+		construct := rel + " leaves host-key checking as the user configured it"
 		if len(hits) > 0 {
-			r.Bad(rule, construct, rel, "the embedded definition carries "+strings.Join(hits, ", ")+": platform/options.go maps the mere presence of that entry (whatever its value) to WithAuthNoStrictKey / WithAuthBypass, so every driver built from this platform skips host-key verification (or in-channel authentication) although the user never disabled it")
+			r.Bad(rule, construct, rel, "the embedded definition carries "+strings.Join(hits, ", ")+": platform/options.go maps the mere presence of that entry (whatever its value) to WithAuthNoStrictKey, so every driver built from this platform skips host-key verification although the user never disabled it")
 		} else {
-			r.OK(rule, construct, rel, "no auth-strict-key / auth-bypass entry")
+			r.OK(rule, construct, rel, "no auth-strict-key entry")
 		}
 	}
 }
